@@ -39,6 +39,8 @@ type normalizer struct {
 	src   map[string][]byte // filename -> original source
 	edits map[string][]textEdit
 	notes []string
+	// suffix given to the locals of the callee inlined last (normalize2.go)
+	lastSfx string
 }
 
 func (n *normalizer) file(pos token.Pos) (string, int) {
